@@ -41,6 +41,9 @@ pub struct Flow {
     /// non-zero: TCP/IP header fields without bearing on the byte stream vary per segment (seeded by this)
     #[serde(default)]
     pub hdr_noise: u64,
+    /// captured on the wire: frames shorter than the 60-byte Ethernet minimum are zero-padded
+    #[serde(default)]
+    pub wire: bool,
 }
 
 #[derive(Clone, Debug, Serialize, Deserialize)]
@@ -78,6 +81,9 @@ fn frame_of(f: &Flow, a: usize, b: usize, framing: Framing) -> Vec<u8> {
     s.ack = 1;
     s.flags = pkt::ACK | pkt::PSH;
     s.payload = f.stream[a..b].to_vec();
+    if f.wire {
+        s.trailer = 1;
+    }
     if f.hdr_noise != 0 {
         // TCP / IP header fields that have no bearing on the byte stream vary from segment to segment:
         // urgent flag and pointer (inside, at the end of, beyond the segment, or zero), ECN bits, window,
@@ -462,7 +468,8 @@ impl Prop for C08 {
                 force_mtu(&mut cuts, stream.len());
             }
             let hdr_noise = if r.chance(1, 4) { r.next_u64() | 1 } else { 0 };
-            flows.push(Flow { src, dst, isn: r.u32(), stream, record_total, cuts, hot, hdr_noise });
+            let wire = r.chance(1, 3);
+            flows.push(Flow { src, dst, isn: r.u32(), stream, record_total, cuts, hot, hdr_noise, wire });
         }
         // distinct 4-tuples
         dedup_tuples(&mut flows);
@@ -502,7 +509,7 @@ impl Prop for C08 {
                 if tier == Tier::Quick && pi == 1 && h > 0 {
                     continue;
                 }
-                let flow = Flow { src: Endpoint::v4(10, 9, 0, 1, 50000), dst: Endpoint::v4(10, 9, 1, 1, 443), isn: 0xffff_ff00, stream: stream.clone(), record_total, cuts: vec![], hot: vec![], hdr_noise: 0 };
+                let flow = Flow { src: Endpoint::v4(10, 9, 0, 1, 50000), dst: Endpoint::v4(10, 9, 1, 1, 443), isn: 0xffff_ff00, stream: stream.clone(), record_total, cuts: vec![], hot: vec![], hdr_noise: 0, wire: false };
                 let mut alt: Vec<Vec<usize>> = (5..len).map(|c| vec![c]).collect();
                 if len <= 300 && tier == Tier::Thorough && h < 6 {
                     for a in 5..len {
